@@ -302,6 +302,32 @@ CLAIMS["C09"]["text"] += (" Also enumerated: two fixed interleaved meshes x ever
 CLAIMS["C11"]["text"] += " The source may be edited or saved once before it is copied (constant Pre)."
 CLAIMS["C12"]["text"] += " The converted triangle set is also compared with the set the source strips define by IndexOps!StripTris."
 
+CLAIMS["C01"]["text"] += (" A value sweep (c01-probe) finds, per (type, version), the generator field values that steer the layout of the "
+                          "block (enumeration values, flags, absent strings; one field and one later field on top); those settings are further "
+                          "configurations. Every configuration is run a second time on the file whose block payload is the very bytes the "
+                          "generator served (an input no build of the library wrote).")
+CLAIMS["C04"]["text"] += (" NifSort.tla transcribes the sorter; NifSortMC checks on every enumerated graph that the transcription terminates and "
+                          "satisfies the relation, and every sort / shape-order step of the library on those graphs is compared with the "
+                          "transcription (exact on the whole scope; a difference would be model drift).")
+CLAIMS["C04"]["note"] = CLAIMS["C04"]["note"].replace("No transcription of the sorter yet (no design-level search beyond the enumerated graphs). ", "")
+CLAIMS["C07"]["text"] += (" Also judged: files written by one object reused across files and versions and for new models, and files in which "
+                          "one type / all types are unknown to the library.")
+CLAIMS["C08"]["text"] += (" The value-sweep settings of C01 are generated by both builds as well; configurations on which the reference build "
+                          "does not re-encode its own normal form to itself are outside the quantifier (decided from the reference build alone).")
+CLAIMS["C10"]["text"] += (" Also: 5..9 influences per vertex, partition ids beyond the given list, and the clause that a partition's per-vertex "
+                          "bone/weight data is the shape's.")
+CLAIMS["C11"]["text"] += " The copy's bytes are also compared with a model that was never copied, taken through the same steps."
+CLAIMS["C12"]["text"] += " Models with 100 bones (beyond the target's per-partition limit) are among the enumerated features."
+CLAIMS["C13"]["text"] += (" Every history also runs on the model reopened from a file and ends with save+reload; the first reload is compared with "
+                          "what was written (FirstReloadViol); a composite fill-all op is part of the alphabet.")
+CLAIMS["C14"]["text"] += (" Further destinations: a fresh model for a source whose skeleton root is a node of its own, and for a Fallout 4+ source "
+                          "flagged for model-space normals; all per-vertex arrays are part of the geometry comparison.")
+CLAIMS["C15"]["text"] += (" Design level: NifSortMC shows that the sorter transcription terminates on every graph with corrupt references, and the "
+                          "library's sort of each corrupt graph equals the transcription's.")
+CLAIMS["C16"]["text"] += " Inputs also include models built through the API with features no sample has (FO4 sub-segments, two LE partitions)."
+CLAIMS["C17"]["text"] += " Under vertex deletion (also of a middle vertex) every surviving triangle keeps its label."
+CLAIMS["C19"]["text"] += " The texturing-property slot kind is exercised in the Oblivion and in the Fallout 3 family."
+
 
 def main():
     props = [json.loads(l) for l in open(os.path.join(ROOT, "properties.jsonl"))]
